@@ -774,6 +774,10 @@ fn spawn_response_loop(mut reader: BufReader<TcpStream>, inner: std::sync::Weak<
                     continue;
                 }
                 Err(err) => {
+                    // Shut the socket down through the reader's own handle
+                    // first: a writer stalled on a peer that stopped reading
+                    // holds the writer lock, and only a shutdown releases it.
+                    let _ = reader.get_ref().shutdown(Shutdown::Both);
                     fail_all_pending(&inner, err);
                     break;
                 }
@@ -825,6 +829,11 @@ fn fail_all_pending(inner: &std::sync::Weak<ClientInner>, err: RepeError) {
         return;
     };
 
+    // Fail the calls in flight before waiting for the writer lock: another
+    // caller may hold it for as long as its write is stalled, and the waiters
+    // must not wait on that to learn the connection is gone.
+    fail_waiters(&inner_ref, &err);
+
     {
         let writer = match inner_ref.writer.lock() {
             Ok(guard) => guard,
@@ -833,8 +842,13 @@ fn fail_all_pending(inner: &std::sync::Weak<ClientInner>, err: RepeError) {
         let _ = writer.get_ref().shutdown(Shutdown::Both);
     }
 
+    // Again, for calls that registered and wrote before the shutdown above.
+    fail_waiters(&inner_ref, &err);
+}
+
+fn fail_waiters(inner: &ClientInner, err: &RepeError) {
     let waiters = {
-        let mut map = match inner_ref.pending.lock() {
+        let mut map = match inner.pending.lock() {
             Ok(guard) => guard,
             Err(poisoned) => poisoned.into_inner(),
         };
@@ -842,7 +856,7 @@ fn fail_all_pending(inner: &std::sync::Weak<ClientInner>, err: RepeError) {
     };
 
     for (request_id, sender) in waiters {
-        let _ = sender.send(Err(clone_fatal_error_for_waiter(&err, request_id)));
+        let _ = sender.send(Err(clone_fatal_error_for_waiter(err, request_id)));
     }
 }
 
